@@ -29,12 +29,17 @@ IM_CHOICES = [None, [], ["DSC"], ["IOU", "RVD"]]
 GM_CHOICES = [["DSC"], [], ["DSC", "IOU"]]
 
 
+BYNAME = "pv_c19_byname_tmp_config"
+
+
 def cases(tier):
     out = []
     for it in range(3):
         for mk in range(3):
             out.append({"name": "evaluator_input%d_matcher%d" % (it, mk), "what": "evaluator", "it": it, "mk": mk})
     out.append({"name": "evaluator_used_then_saved", "what": "used", "it": 0, "mk": 1})
+    # the by-name API as a sequence: save A under a name, load it, save B under the same name, load again -> B
+    out.append({"name": "by_name_save_load_save_load", "what": "byname"})
     for comp in ("naive", "merge", "cca", "handler", "zerotp", "labelgroup", "mergegroup", "classgroups", "enums"):
         out.append({"name": "component_" + comp, "what": comp})
     return out
@@ -153,7 +158,11 @@ def build(ns, ch, what, case):
     kw["save_group_times"], kw["log_times"], kw["verbose"] = ch.flag("save_group_times"), ch.flag("log_times"), ch.flag("verbose")
     if ch.choice("groups", 2):
         kw["segmentation_class_groups"] = groups("g_")
-    if ch.choice("handler", 2):
+    hc = ch.choice("handler", 3)
+    if hc == 2:
+        # the default per-metric table, only the empty-list value differs from the default
+        kw["edge_case_handler"] = ns.EdgeCaseHandler(empty_list_std=ns.EdgeCaseResult.ZERO)
+    elif hc == 1:
         R = ns.EdgeCaseResult
         kw["edge_case_handler"] = ns.EdgeCaseHandler(listmetric_zeroTP_handling={Metric.DSC: ns.MetricZeroTPEdgeCaseHandling(no_instances_result=R.ONE, default_result=R.NONE),
                                                                                  Metric.IOU: ns.MetricZeroTPEdgeCaseHandling(default_result=R.ZERO, normal=R.INF)}, empty_list_std=R.ZERO)
@@ -301,7 +310,41 @@ def run_case(case):
         ne = yamlmodel.node_equal(fs.files["/cfg/a.yaml"][0], fs.files["/cfg/b.yaml"][0])
         h.ok("resaving_reproduces_the_file", False if ne is False else z3.And(ne + [z3.BoolVal(True)]))
         h.witness(expect=None)
-    return explore_case(h, body_used if what == "used" else body, concretize_div=64, time_budget=3000)
+    def body_byname():
+        fs.__init__()
+        ch = Chooser()
+        holder["ch"] = ch
+        # pristine package per path (a name-keyed cache of one path must not leak into the next one)
+        T2 = Twin(fakes=mods, extra_builtins={"open": fopen})
+        ns2 = twin_namespace(T2)
+        FPm = T2.mod("panoptica.utils.filepath")
+        FakePath = mods["pathlib"].Path
+
+        def search_path(directory, query, *a, **k):
+            name_ = str(query).split("/")[-1]
+            return [FakePath(p_) for p_ in sorted(fs.files) if p_.endswith("/" + name_) and p_.startswith(str(directory))]
+        FPm.search_path = search_path
+        t1, t2 = ch.real("thr_first"), ch.real("thr_second")
+        name = BYNAME + (".yaml" if ch.choice("name_given_with_suffix", 2) else "")
+        cls = ns2.NaiveThresholdMatching
+        try:
+            a, b = cls(matching_threshold=t1), cls(matching_threshold=t2)
+            a.save_to_config_by_name(name)
+            la = cls.load_from_config_name(name)
+            b.save_to_config_by_name(name)
+            lb = cls.load_from_config_name(name)
+        except EngineSignal:
+            raise
+        except Exception as e:
+            h.fail("save_and_load_complete", detail="%s: %s" % (type(e).__name__, str(e)[:160]))
+            return
+        for tag, x_, y_ in (("first", a, la), ("second", b, lb)):
+            eqs, why = state_same(x_, y_)
+            h.ok("loaded_object_has_identical_settings", False if eqs is None else z3.And(eqs + [z3.BoolVal(True)]), detail={"which": tag, "why": why})
+        h.note_nontrivial(name)
+        h.note_nontrivial("byname")
+        h.witness(expect=None)
+    return explore_case(h, {"used": body_used, "byname": body_byname}.get(what, body), concretize_div=64, time_budget=3000)
 
 
 # ================================================================================================ real-package side
@@ -328,6 +371,8 @@ def real_roundtrip(case, mode, expect):
     what = case["what"]
     if what == "used":
         return _real_used(ns, case)
+    if what == "byname":
+        return _real_byname(ns, case)
     try:
         x = build(ns, RealChooser(case), what, case)
     except AssertionError:
@@ -405,6 +450,36 @@ def _real_used(ns, case):
         return {"match": True, "violates": bad is not None, "reason": bad, "observed": None}
     finally:
         shutil.rmtree(tmp, ignore_errors=True)
+
+
+def _real_byname(ns, case):
+    import os
+    from panoptica.utils.filepath import config_dir_by_name
+    ch = RealChooser(case)
+    t1, t2 = ch.real("thr_first"), ch.real("thr_second")
+    name = BYNAME + (".yaml" if ch.choice("name_given_with_suffix", 2) else "")
+    cls = ns.NaiveThresholdMatching
+    d, fname = config_dir_by_name(name)
+    target = os.path.join(str(d), fname)          # the by-name API writes into the package directory: removed again below
+    bad = None
+    try:
+        a, b = cls(matching_threshold=t1), cls(matching_threshold=t2)
+        a.save_to_config_by_name(name)
+        la = cls.load_from_config_name(name)
+        b.save_to_config_by_name(name)
+        lb = cls.load_from_config_name(name)
+        for tag, x_, y_ in (("first", a, la), ("second", b, lb)):
+            if x_._matching_threshold != y_._matching_threshold:
+                bad = "loaded_object_has_identical_settings: after save(%r) load save(%r) load under the name %r the %s load returns matching_threshold %r" % (
+                    t1, t2, name, tag, y_._matching_threshold)
+    except Exception as e:
+        bad = "save_and_load_complete: %s: %s" % (type(e).__name__, str(e)[:160])
+    finally:
+        try:
+            os.remove(target)
+        except OSError:
+            pass
+    return {"match": True, "violates": bad is not None, "reason": bad, "observed": None}
 
 
 REAL = {"roundtrip": real_roundtrip}
